@@ -92,7 +92,8 @@ def stop_once(F, R):
     R.ob('C07.stop-once', 'poll_service|stopped=>Continue', bool(readys) and not bad, 'poll_service can report Ready after it has called stop(): poll would go on reading and may stop again')
     # poll: calls to poll_service: stops after it must be on the PollService::Ready edge
     pse = variant_edges(F, poll, 'io::PollService')
-    ready_region = arm_region(poll, pse.get('Ready', []))
+    ready_edges_ = list(pse.get('Ready', [])) + list(enum_eq_edges(F, poll, 'io::PollService').get('Ready', []))
+    ready_region = arm_region(poll, ready_edges_)
     for bi, t in poll.calls_to(r'^io::DispatcherInner::<P, C, U, E>::poll_service$'):
         after = poll.reachable_after(bi, avoid={head})
         for sb, st in poll.calls_to(r'^io::DispatcherInner::<P, C, U, E>::stop$'):
@@ -107,7 +108,7 @@ def stop_once(F, R):
         n_tr += 1
         R.ob('C07.stop-once', 'poll|transition|%s->%s' % ('+'.join(src) or '?', var), len(src) == 1 and var in allowed[src[0]],
              'state transition %s -> %s is not a forward transition of the teardown typestate' % (src, var), poll.loc(bi))
-    R.floor('C07.stop-once', 'state transitions in poll', n_tr, 5)
+    R.floor('C07.stop-once', 'state transitions in poll', n_tr, 3)
     # stop() is called only from poll (Processing/Backpressure) and poll_service; poll_service only from those regions
     for caller, bi in F.callers.get(stopf.path, []):
         ok = caller in (poll.path, ps.path)
